@@ -416,7 +416,10 @@ where
                     break 'transfer;
                 }
 
-                let cookie = serde_json::from_slice::<AuthCookie>(message)?;
+                let Ok(cookie) = serde_json::from_slice::<AuthCookie>(message) else {
+                    debug!("unparsable auth cookie payload received, skipping auth cookie");
+                    break 'transfer;
+                };
                 let expires_at = cookie.timestamp + self.auth_cookie_expiry;
                 let now = SystemTime::now()
                     .duration_since(UNIX_EPOCH)
